@@ -20,7 +20,7 @@ Theorem C46_v2_proxy_roundtrip : forall tmo limit chunks os od fam src dst sp dp
   0 <= sp < 65536 -> 0 <= dp < 65536 ->
   16 + blen (block_ip src dst sp dp ++ tlv) <= eff_limit limit ->
   conn_run tmo limit chunks os od =
-  VL [VL [VB (canon_ip src); VZ sp]; VL [VB (canon_ip dst); VZ dp]; VB payload; VZ 0; VZ 0].
+  VL [VL [VB (canon_ip src); VZ sp]; VL [VB (canon_ip dst); VZ dp; VZ 1]; VB payload; VZ 0; VZ 0].
 Proof. exact v2_proxy_roundtrip. Qed.
 Print Assumptions C46_v2_proxy_roundtrip.
 
@@ -45,7 +45,7 @@ Theorem C46_v1_tcp4_roundtrip : forall tmo limit chunks os od src dst sp dp payl
   blen src = 4 -> blen dst = 4 -> wf_bytes src = true -> wf_bytes dst = true ->
   0 <= sp < 65536 -> 0 <= dp < 65536 ->
   blen (enc_v1_tcp4 src dst sp dp) <= eff_limit limit ->
-  conn_run tmo limit chunks os od = VL [VL [VB src; VZ sp]; VL [VB dst; VZ dp]; VB payload; VZ 0; VZ 0].
+  conn_run tmo limit chunks os od = VL [VL [VB src; VZ sp]; VL [VB dst; VZ dp; VZ 1]; VB payload; VZ 0; VZ 0].
 Proof. exact v1_tcp4_roundtrip. Qed.
 Print Assumptions C46_v1_tcp4_roundtrip.
 
@@ -61,7 +61,7 @@ Theorem C46_v1_tcp6_roundtrip : forall tmo limit chunks os od ta tb sp dp payloa
   os <> [] -> od <> [] ->
   0 <= sp < 65536 -> 0 <= dp < 65536 ->
   blen (enc_v1_tcp6 ta tb sp dp) <= eff_limit limit ->
-  conn_run tmo limit chunks os od = VL [VL [VB (canon_ip os); VZ sp]; VL [VB (canon_ip od); VZ dp]; VB payload; VZ 0; VZ 0].
+  conn_run tmo limit chunks os od = VL [VL [VB (canon_ip os); VZ sp]; VL [VB (canon_ip od); VZ dp; VZ 1]; VB payload; VZ 0; VZ 0].
 Proof. exact v1_tcp6_roundtrip. Qed.
 Print Assumptions C46_v1_tcp6_roundtrip.
 
@@ -179,14 +179,14 @@ Proof. exact central_examples. Qed.
 (* Non-vacuity / concrete instances, incl. v1 (TCP4 delivered byte by byte, and the short UNKNOWN form). *)
 Example C46_ex_v2 :
   concat ex_chunks_v2 = enc_v2_proxy 17 [1; 2; 3; 4] [5; 6; 7; 8] 80 443 [9; 9; 9] ++ [104; 105]
-  /\ conn_run false 0 ex_chunks_v2 [] [] = VL [VL [VB [1; 2; 3; 4]; VZ 80]; VL [VB [5; 6; 7; 8]; VZ 443]; VB [104; 105]; VZ 0; VZ 0].
+  /\ conn_run false 0 ex_chunks_v2 [] [] = VL [VL [VB [1; 2; 3; 4]; VZ 80]; VL [VB [5; 6; 7; 8]; VZ 443; VZ 1]; VB [104; 105]; VZ 0; VZ 0].
 Proof. exact ex_v2_lemma. Qed.
 Example C46_ex_local :
   concat ex_chunks_local = enc_v2 32 0 [] [] ++ [71; 69; 84]
   /\ conn_run false 0 ex_chunks_local [] [] = VL [VL []; VL []; VB [71; 69; 84]; VZ 0; VZ 0].
 Proof. exact ex_local_lemma. Qed.
 Example C46_ex_v1 :
-  conn_run false 0 (map (fun b => [b]) ex_v1) [] [] = VL [VL [VB [1; 2; 3; 4]; VZ 80]; VL [VB [5; 6; 7; 8]; VZ 443]; VB [104; 105]; VZ 0; VZ 0]
+  conn_run false 0 (map (fun b => [b]) ex_v1) [] [] = VL [VL [VB [1; 2; 3; 4]; VZ 80]; VL [VB [5; 6; 7; 8]; VZ 443; VZ 1]; VB [104; 105]; VZ 0; VZ 0]
   /\ conn_run false 0 [enc_v1_unknown [] ++ [104; 105]] [] [] = VL [VL []; VL []; VB [104; 105]; VZ 0; VZ 0].
 Proof. exact ex_v1_lemma. Qed.
 Example C46_ex_malformed :
